@@ -64,6 +64,7 @@ type Contract struct {
 	LoopDecr  map[int][]*Expr
 	LoopMod   map[int][]*Expr
 	Sites     []*SiteClause
+	ModEach   []*ModEach
 	Lets      []struct {
 		Name string
 		E    *Expr
@@ -76,6 +77,13 @@ type Contract struct {
 	Where  string
 	Props map[string]bool // property tags mentioned
 	SafetyProps map[string]bool // properties owning the implicit safety/termination obligations
+}
+
+// ModEach is a quantified modifies item: each <var> : <pred> : <lvalue>
+type ModEach struct {
+	Var  string
+	Pred *Expr
+	LV   *Expr
 }
 
 // SiteClause attaches a ghost update or an assertion to a call/go/defer site.
@@ -359,6 +367,22 @@ func parseContract(key string, clauses []string, where string) (*Contract, error
 			}
 		case "modifies":
 			for _, item := range splitTop(rest) {
+				if strings.HasPrefix(item, "each ") {
+					parts := strings.SplitN(item[5:], ":", 3)
+					if len(parts) != 3 {
+						return nil, fmt.Errorf("%s: bad 'each' modifies item %q", w, item)
+					}
+					pe, err := ParseExpr(parts[1], w)
+					if err != nil {
+						return nil, err
+					}
+					le, err := ParseExpr(parts[2], w)
+					if err != nil {
+						return nil, err
+					}
+					c.ModEach = append(c.ModEach, &ModEach{Var: strings.TrimSpace(parts[0]), Pred: pe, LV: le})
+					continue
+				}
 				e, err := ParseExpr(item, w)
 				if err != nil {
 					return nil, err
